@@ -1,4 +1,4 @@
-HOOK_COMMITS = ['bf32749', 'ca41ce7']
+HOOK_COMMITS = ['bf32749', 'ca41ce7', '513c013']
 FIX_COMMITS = ['f0a070f', '9d43084', '8b6f7d6', '44b358d']
 NOTES = ('Machine-checked proof in Lean 4 over a hand-written model, tied to /repo on every run by a translator (data) and a '
          'differential correspondence check (code). See DESIGN.md. Repaired defects are listed in known_findings.txt as fixed: lines.')
